@@ -473,6 +473,7 @@ def assemble(unit_name, out_path=None):
                 "token_hash": r["token_hash"],
                 "text_sha256": hashlib.sha256(r["text"].encode()).hexdigest()[:16],
                 "vx": f"{sp['vx_path']}:{sp['vx_line']}",
+                "identity": bool(sp.get("identity")),
             })
     emit("\n} // verus!\nfn main() {}", lambda j: {"kind": "footer"})
     out_path = out_path or os.path.join(ROOT, "build", unit_name + ".rs")
